@@ -757,3 +757,42 @@ func init() {
 		}
 	}
 }
+
+func init() {
+	// vRecord*(label, value): translator validation on concrete vectors. The value computed by the
+	// interpreter must be concrete; it becomes part of a reachability-witness label, and the native
+	// twin builds the label from the value the real code computes - the replay is concordant only
+	// if both agree.
+	rec := func(e *Exec, args []Value, val string) Value {
+		e.cover("rec:" + e.mustConstString(args[0], "record label") + "=" + val)
+		return nil
+	}
+	extraIntrinsics["vRecordBool"] = func(e *Exec, fn *ssa.Function, args []Value) Value {
+		t := args[1].(*smt.Term)
+		if e.branch(t) {
+			return rec(e, args, "true")
+		}
+		return rec(e, args, "false")
+	}
+	extraIntrinsics["vRecordU64"] = func(e *Exec, fn *ssa.Function, args []Value) Value {
+		t := args[1].(*smt.Term)
+		if !t.IsConst() {
+			panic(engineErr("vRecordU64: value is not concrete"))
+		}
+		return rec(e, args, fmt.Sprint(t.Val))
+	}
+	extraIntrinsics["vRecordString"] = func(e *Exec, fn *ssa.Function, args []Value) Value {
+		s, ok := strView(args[1].(Str)).concrete()
+		if !ok {
+			panic(engineErr("vRecordString: value is not concrete"))
+		}
+		return rec(e, args, fmt.Sprintf("%x", s))
+	}
+	extraIntrinsics["vRecordBytes"] = func(e *Exec, fn *ssa.Function, args []Value) Value {
+		s, ok := bytesView(args[1].(Bytes)).concrete()
+		if !ok {
+			panic(engineErr("vRecordBytes: value is not concrete"))
+		}
+		return rec(e, args, fmt.Sprintf("%x", s))
+	}
+}
